@@ -13,6 +13,8 @@ type Rule struct {
 	Explanation string   // what is decided, for the evidence file
 	NotDecided  []string // clauses of the property the static check does not decide
 	Assumptions []string
+	Technique   string // deciding method, for MANIFEST.json
+	Trusted     string // trusted base / assumptions, for MANIFEST.json (level_note)
 	Run         func(c *an.Ctx)
 }
 
